@@ -5,8 +5,10 @@ unbatched append mode, memory and file journals.  A replicated call with an argu
 `start/process/finish` chunk burst; the link leader -> follower is cut while the leader is inside the chunk loop, at
 chunk j, for EVERY j of the burst (the chunks before j have reached the follower, chunk j and the rest are lost; the
 real `__sendAppendEntries` leaves the loop because the node is no longer connected).  After a few ticks the link comes
-back and the leader repeats the entry from `start`.  On 3 nodes additionally a LEADER CHANGE in the middle of a
-transfer: the follower holds the first chunk of the old leader's burst, the old leader is isolated, the new leader
+back and the leader repeats the entry from `start`.  FOLLOWER BEHIND: the ordinary `append_entries` carrying the entries
+before an oversized entry is lost with its connection (the leader's nextIndex has already moved on), or the follower is
+restarted with an empty (memory) journal, and then the chunk burst of the oversized entry arrives at a follower whose log
+ends before `prevLogIdx`.  On 3 nodes additionally a LEADER CHANGE in the middle of a transfer: the follower holds the first chunk of the old leader's burst, the old leader is isolated, the new leader
 (which holds the entry) sends it again from `start`.  After every interruption a second oversized call follows.
 
 Monitor = the property statement: every replica executes each call exactly once with equal arguments, no exception
@@ -40,7 +42,17 @@ class Fault(object):
 
         def hooked(a, b, msg):
             f = fault.armed
-            if f is not None and a == f[0] and b == f[1] and msg.get("transmission") is not None:
+            if f is not None and f[2] == "lose-regular" and a == f[0] and b == f[1] and msg.get("type") == "append_entries" \
+                    and msg.get("transmission") is None and msg.get("entries"):
+                # the ordinary append_entries is lost with its connection; the link is back at once
+                fault.armed = None
+                fault.fired = True
+                sim.cut(a, b)
+                sim.notice(a, b)
+                sim.notice(b, a)
+                sim.connect(a, b)
+                return False
+            if f is not None and f[2] != "lose-regular" and a == f[0] and b == f[1] and msg.get("transmission") is not None:
                 if msg["transmission"] == "start":
                     fault.count = 0
                 fault.count += 1
@@ -165,6 +177,61 @@ class Run(object):
             j += 1
         cov["bursts-max-chunks:%d" % self.fault.max_seen] += 1
 
+    def follower_behind(self, cov):
+        """the chunk burst of an oversized entry reaches a follower whose log ends before prevLogIdx"""
+        sim = self.sim
+        L = sim.leader() or sim.elect()
+        if L is None:
+            return
+        F = [i for i in sim.voters if i != L][0]
+        # (a) the message with the preceding small entry is lost with its connection, then the oversized call
+        small = "small#%d" % self.n
+        self.n += 1
+        self.fault.arm(L, F, "lose-regular")
+        self.steps.append("lose the append_entries %s->%s that carries the entry before the oversized one" % (L, F))
+        c1 = sim.submit(L, small)
+        for _ in range(6):
+            sim.tick(L, 0.0625)
+            if self.fault.fired:
+                break
+        fired = self.fault.fired
+        self.fault.armed = None
+        a = self.arg("behind")
+        c2 = sim.submit(L, a)
+        if fired:
+            cov["follower-behind-lost-message"] += 1
+            # the leader sends the burst before any reply of the follower can correct its nextIndex
+            sim.tick(L, 0.0625)
+            sim.tick(L, 0.125)
+            chunks = [m for m in sim.chan[(L, F)] if m.get("transmission") is not None]
+            if chunks:
+                cov["follower-behind-burst-in-flight"] += 1
+        self.settle([small, a])
+        if not self.check([small, a], [c1, c2], True):
+            return
+        # (b) the follower restarts with an empty memory journal and gets a burst at once
+        if not self.cfg["journal"]:
+            done = [x for (_, x) in sim.execs[L]]
+            sim.kill(F)
+            sim.restart(F)
+            sim.execs[F] = []
+            for j in sim.voters:
+                if j != F:
+                    sim.connect(F, j)
+            b = self.arg("restarted")
+            self.steps.append("%s restarted empty, oversized call at once" % F)
+            c3 = sim.submit(L, b)
+            sim.tick(L, 0.0625)
+            sim.tick(L, 0.125)
+            cov["follower-behind-restarted-empty"] += 1
+            self.settle(done + [b], ticks=120)
+            if sim.errors:
+                e = sim.errors[0]
+                self.report(SIG_EXC + ":" + e[1], "%s escaped on node %s (%s)" % (e[1], e[0], e[2][:80]))
+                return
+            if not self.check(done + [b], [c3], True):
+                return
+
     def leader_change_mid_transfer(self, cov):
         sim = self.sim
         if len(sim.voters) < 3:
@@ -225,6 +292,8 @@ def one(ctx, cfg, seed, cov):
     r = Run(ctx, cfg, seed)
     r.link_cut_at_every_chunk(cov)
     if not r.viols:
+        r.follower_behind(cov)
+    if not r.viols:
         r.leader_change_mid_transfer(cov)
     cov["mode:" + ("batched" if cfg["use_batch"] else "unbatched")] += 1
     cov["journal:" + ("file" if cfg["journal"] else "memory")] += 1
@@ -256,7 +325,8 @@ def run(ctx):
            "samples": [{"scenario": "cut the link at chunk j of the burst for every j, reconnect, second oversized call; "
                                     "leader change mid-transfer on 3 nodes"}],
            "disagreements": [], "violations": viols[:3], "wall_s": round(time.time() - t0, 2)}
-    need = ["cut-at-chunk-first", "cut-at-chunk-later", "leader-change-mid-transfer", "mode:batched", "mode:unbatched",
+    need = ["cut-at-chunk-first", "cut-at-chunk-later", "leader-change-mid-transfer", "follower-behind-lost-message",
+            "follower-behind-burst-in-flight", "follower-behind-restarted-empty", "mode:batched", "mode:unbatched",
             "journal:file", "journal:memory"]
     missing = [k for k in need if cov[k] == 0]
     if missing and not viols:
